@@ -58,6 +58,8 @@ type Eval struct {
 	Res   *Result
 	Vec   []int
 	Cost  int
+
+	customStatements []string // left by the C08 oracle for C16
 }
 
 func (e *Eval) Fail(clause, sig, detail string) {
